@@ -96,6 +96,21 @@ static int usability_cycle(const pt_t *p, rng_t *rng)
 			if (g_viol_total != before) ret = 3; else if (!res.complete) ret = 2;
 		}
 	}
+	if (ret == 0 && c.codec == 3 && n <= 4000 && rng_below(rng, 2)) {
+		/* streaming use of an accepted LDPC configuration: no of_finish_decoding; after every call the available sources must be the
+		 * peeling closure of what was submitted (the C04 oracle), for a random subset in random order */
+		g_prop = ""; int orc = block_oracle(&b); g_prop = sv;
+		if (orc == 0) {
+			m = 0; for (uint32_t e = 0; e < n; e++) if (rng_below(rng, 4)) sub[m++] = e;
+			for (uint32_t i = m; i > 1; i--) { uint32_t j = rng_below(rng, i); uint32_t t = sub[i - 1]; sub[i - 1] = sub[j]; sub[j] = t; }
+			hist_t h3 = { 0, 0, 0, p->role == 3 ? 1 : 0, 0, m, sub, n <= 300 ? 1 : (int)(n / 20), 0, 1 };
+			g_prop = "C01"; g_force_closure_monitor = 1; before = g_viol_total;
+			run_history(&b, &h3, MON_C01 | MON_C04, &res);
+			g_force_closure_monitor = 0; g_prop = sv;
+			if (g_viol_total != before) ret = 4;
+			rep_count("streaming_cycles_checked_against_the_peeling_closure", 1);
+		}
+	}
 	g_session_preprobe = 0;
 	free(sub); free(lost); block_free(&b);
 	return ret;
@@ -180,7 +195,7 @@ static void point(const pt_t *p, rng_t *rng)
 	else if (nv && rc != 10) { snprintf(key, sizeof key, "accept-outside:codec=%s:limit=%s", cn(p->codec), lim); rep_viol(key, "of_set_fec_parameters returned OF_STATUS_OK for a configuration outside the advertised limits"); }
 	else if (!nv && rc == 10 && p->L > (1u << 20)) rep_count("huge_symbol_length_rejected_tolerated_as_out_of_memory", 1);
 	else if (!nv && rc == 10) { snprintf(key, sizeof key, "reject-inside:codec=%s", cn(p->codec)); rep_viol(key, "of_set_fec_parameters rejected a configuration inside the advertised limits"); }
-	else if (!nv && rc >= 20) { snprintf(key, sizeof key, "accepted-unusable:codec=%s:phase=%s", cn(p->codec), rc == 21 ? "encode" : rc == 22 ? "decode-incomplete" : "decode-wrong"); rep_viol(key, "accepted configuration failed the encode/decode cycle"); }
+	else if (!nv && rc >= 20) { snprintf(key, sizeof key, "accepted-unusable:codec=%s:phase=%s", cn(p->codec), rc == 21 ? "encode" : rc == 22 ? "decode-incomplete" : rc == 24 ? "streaming-decode" : "decode-wrong"); rep_viol(key, "accepted configuration failed the encode/decode cycle"); }
 	if (!nv) { rep_count("points_inside_limits", 1); if (want_cycle) rep_count("usability_cycles", 1); rep_sample("inside-limits"); }
 	else { rep_count("points_outside_limits", 1); rep_sample("outside-limits"); }
 	rep_case_done(1, 0, 1);
@@ -283,8 +298,11 @@ static void corruption_case(const cfg_t *c, rng_t *rng)
 	/* ---- encoder-only session ---- */
 	of_session_t *e = NULL;
 	if (of_create_codec_instance(&e, (of_codec_id_t)c->codec, OF_ENCODER, 0) != OF_STATUS_OK || !e) rep_fatal("C09: create failed");
-	expect_err("of_set_fec_parameters", "null-params", c->codec, of_set_fec_parameters(e, NULL));
-	if (of_set_fec_parameters(e, (of_parameters_t *)pb) != OF_STATUS_OK) rep_viol("reject-inside:corruption-setup", "valid parameters rejected after a NULL-params call");
+	{	/* NULL parameters: on an instance of its own, which is only released afterwards (the status is OF_STATUS_FATAL_ERROR) */
+		of_session_t *t = NULL;
+		if (of_create_codec_instance(&t, (of_codec_id_t)c->codec, OF_ENCODER, 0) == OF_STATUS_OK && t) { expect_err("of_set_fec_parameters", "null-params", c->codec, of_set_fec_parameters(t, NULL)); of_release_codec_instance(t); }
+	}
+	if (of_set_fec_parameters(e, (of_parameters_t *)pb) != OF_STATUS_OK) rep_viol("reject-inside:corruption-setup", "valid parameters rejected");
 	else {
 		for (uint32_t i = 0; i < n; i++) tab[i] = i < k ? (void *)ref.sym[i] : NULL;
 		uint8_t **out = calloc(n + 1, sizeof *out);
